@@ -374,3 +374,7 @@ if __name__ == '__main__':
     e = pytrans_uow.generate(repo, os.path.join(here, 'coq', 'Gen', 'UowGen.v'))
     if e:
         sys.stderr.write('pytrans_uow: translator refused: %s\n' % e)
+    import pytrans_sp
+    e = pytrans_sp.generate(repo, os.path.join(here, 'coq', 'Gen', 'ManagerSpGen.v'))
+    if e:
+        sys.stderr.write('pytrans_sp: translator refused: %s\n' % e)
